@@ -327,8 +327,39 @@ class Degenerate(SubCheck):
         return out
 
 
+def stale_check(svg, tier):
+    """the viewport transform is a function of the Viewbox's and the element's *current* fields"""
+    import io
+    from props import stale
+
+    class El(object):
+        def __init__(self):
+            self.x, self.y, self.width, self.height = 10.0, 20.0, 300.0, 100.0
+
+    def vb_pair():
+        return [svg.Viewbox("5 -5 40 80", "xMidYMid meet"), El()]
+
+    def doc():
+        return svg.SVG.parse(io.StringIO('<svg xmlns="http://www.w3.org/2000/svg" width="300" height="100" viewBox="5 -5 40 80" '
+                                         'preserveAspectRatio="xMinYMax slice"><rect width="3" height="4"/></svg>'))
+    sources = {"viewbox+element": vb_pair, "parsed-svg": doc}
+    measures = {
+        "Viewbox.transform(element)": lambda o: o[0].transform(o[1]) if isinstance(o, list) else o.viewbox.transform(o),
+        "SVG.viewbox_transform": lambda o: o.viewbox_transform if not isinstance(o, list) else (_ for _ in ()).throw(AttributeError()),
+    }
+    vb = lambda o: o[0] if isinstance(o, list) else o.viewbox
+    el = lambda o: o[1] if isinstance(o, list) else o
+    muts = {}
+    for par in ("none", "xMaxYMax meet", "xMinYMin slice", "xMidYMid"):
+        muts["par=%s" % par] = (lambda p: (lambda o: setattr(vb(o), "preserve_aspect_ratio", p)))(par)
+    for f, v in (("x", 1.0), ("y", 2.0), ("width", 80.0), ("height", 20.0)):
+        muts["viewbox.%s=" % f] = (lambda f, v: (lambda o: setattr(vb(o), f, v)))(f, v)
+        muts["element.%s=" % f] = (lambda f, v: (lambda o: setattr(el(o), f, v * 3)))(f, v)
+    return stale.Stale(svg, measures, kinds=[], extra_sources=sources, only_mutations=[], extra_mutations=muts, depth=2)
+
+
 def build(tier, seed, svg):
-    return [Table(svg, tier), Documents(svg, tier), Degenerate(svg, tier)]
+    return [Table(svg, tier), Documents(svg, tier), Degenerate(svg, tier), stale_check(svg, tier)]
 
 
 MATCHERS = {}
